@@ -103,7 +103,7 @@ def analyse_configs(paths, jobs=None, only=None, select=None):
         if only:
             ids = [i for i in ids if any(o in i for o in only)]
         if select is not None:
-            ids = [i for i in ids if select(f.bodies[i])]
+            ids = [i for i in ids if select(f.bodies[i], c)]
         tasks += [(c, i) for i in ids]
     tasks.sort(key=lambda t: -sum(len(b['stmts']) + 1 for b in facts[t[0]].bodies[t[1]].blocks))
     jobs = jobs or min(16, os.cpu_count() or 4)
